@@ -90,6 +90,11 @@ CHECKS = {
             "of generated runs, on the in-memory and the SQLite back end",
             "Proof-level content is limited to what a row can hold and the order inside the task event. That every in-memory write is followed by a row write before the next "
             "quiescent point is a whole-program discipline decided by the image comparison on the engine, not proved. `$params` (a recomputable memo) is excluded.", "5 C11"),
+    "C17": ("Lean 4 K3 theorems on the row model (removeProc deletes exactly the task and process rows of that pid and no message; removals commute; removal iff "
+            "!keep_processes from the translated rule; actions on a removed process are refused first; rm_model removes exactly its events) + monitor on the rows of "
+            "all collections after every operation of interleaved workloads, both keep settings, both back ends",
+            "That the back ends' `pid =` query selects exactly the pid's rows rests on the C10 query theorem and differential runs. 'Finished' is the delivery of the "
+            "complete/error event on the default channel.", "5 C17"),
 }
 
 NOT_YET = {}
